@@ -24,6 +24,7 @@ import (
 	"os"
 	"path/filepath"
 	"reflect"
+	"runtime/debug"
 	"strings"
 	"testing"
 	"unicode"
@@ -126,6 +127,11 @@ func c17clEq(a, b []string) bool {
 func TestVerifC17Clang(t *testing.T) {
 	rep := vNewReport("internal/clang mergeCompilerFlags/mergeLinkerFlags/Compile/Link: env CCFLAGS, CFLAGS, LDFLAGS = 0-3 flags each (\"-\"+flag char+0-5 symbols over {blank, NBSP, quotes, \\, -, $, (, ), {, }, =, /, comma, ASCII, multi-byte}, quoted the documented pkg-config way, duplicates on purpose; sometimes unset/empty); config CCFLAGS/CFLAGS/LDFLAGS and call arguments = 0-3 arbitrary strings each (blanks, empty strings, duplicates). Laws: compile argv = env CCFLAGS ++ env CFLAGS ++ cfg.CCFLAGS ++ cfg.CFLAGS ++ args; link argv = env CCFLAGS ++ env LDFLAGS ++ cfg.LDFLAGS ++ args; config not mutated; same answer twice. Compile/Link observed at the process boundary on a sub-sample (recording command)")
 	defer rep.Write()
+	defer func() { // a panic of the code under test outside a guarded call is an observation, not a broken check
+		if p := recover(); p != nil {
+			rep.Fail("clang:panic", "monitor", fmt.Sprintf("panic escaped the monitor: %v\n%s", p, debug.Stack()), nil)
+		}
+	}()
 
 	avoidTrail := !reflect.DeepEqual(safesplit.SplitPkgConfigFlags(`-Dx\ `), []string{"-Dx "})
 	avoidDash := !reflect.DeepEqual(safesplit.SplitPkgConfigFlags(`-L-dir`), []string{"-L-dir"})
@@ -155,7 +161,7 @@ func TestVerifC17Clang(t *testing.T) {
 
 	r := rand.New(rand.NewSource(vSeed()*1000003 + 176))
 	total := vN(12000, 1000000)
-	nExec := vN(40, 1000)
+	nExec := vN(20, 600)
 	execEvery := total / nExec
 	for i := 0; i < total; i++ {
 		envArgs := map[string][]string{}
